@@ -32,7 +32,7 @@ def bounds(tier):
 def cases(tier, seed):
     q = tier == "quick"
     dags = world.dag_shapes(4 if q else 5)
-    cyc = world.dig_shapes(4, 6 if q else 8) + world.named_shapes()
+    cyc = world.dig_shapes(4, 6 if q else 8) + world.named_shapes() + ([] if q else [x for x in world.dig_shapes(5, 6, selfloops=False) if x[0] == 5 and not world.is_acyclic(*x)])
     seen = set()
     for fam, shapes in (("dag", dags), ("cyc", cyc)):
         for idx, shp in enumerate(shapes):
